@@ -493,3 +493,11 @@ Proof.
   - apply forallb_wfb. vm_compute. reflexivity.
   - vm_compute. intros H; discriminate H.
 Qed.
+
+(* tools/compiler.parse_all called several times on one tree: adding the files batch by batch is the same fold *)
+Lemma merge_compiler_batches (gs : list (list node)) (t0 : node) :
+  fold_left extend (concat gs) t0 = fold_left (fun t g => fold_left extend g t) gs t0.
+Proof.
+  revert t0. induction gs as [|g gs IH]; intros t0; simpl; [reflexivity|].
+  rewrite fold_left_app. apply IH.
+Qed.
